@@ -322,6 +322,44 @@ for nm, q in (("vec_try_reserve_u64", 0), ("vec_try_reserve_a3", 0), ("vec_try_r
       bounds={"additional": "any impossible value"})
 
 
+# ---------------------------------------------------------------------------
+# S1/S2 collections::String (C14)
+# ---------------------------------------------------------------------------
+LOSSY_MOD = "collections::str::lossy::__verif_lossy"
+H("s2_char_width", LOSSY_MOD, "S2", quick=["C14"], cost=3, inst="-", funcs=["collections::str::utf8_char_width", "UTF8_CHAR_WIDTH table"], bounds={"byte": "all 256 values"})
+for n in (2, 3, 4):
+    H("s2_lossy_n%d" % n, LOSSY_MOD, "S2", quick=["C14"] if n == 3 else [], thorough=["C14"], timeout=2400, cost=60, mem_gb=16, inst="-",
+      funcs=["Utf8LossyChunksIter::next"], bounds={"input": "every byte string of 1..%d bytes" % n, "oracle": "RFC 3629 maximal-subpart spec (validated natively against <[u8]>::utf8_chunks)"})
+S1 = ["push", "push_str", "pop", "insert", "insert_str", "remove", "truncate", "split_off", "drain", "replace", "replace_incl", "retain"]
+for op in S1:
+    H("s1_" + op, "__verif::s1", "S1", quick=["C14"] if op in ("push", "pop", "insert", "remove", "truncate", "drain", "replace_incl") else [], thorough=["C14"],
+      timeout=2400, cost=60, mem_gb=16, stubs=STUB_CUT + STUB_LOOPS, inst="String", funcs=["collections::String::" + op],
+      bounds={"text": "any valid UTF-8 of 0..4 bytes", "index/range": "any LEGAL value (boundary, in range)", "char": "any char"})
+for op in ["insert", "insert_str", "remove", "truncate", "split_off", "drain", "replace", "replace_incl"]:
+    H("s1p_" + op, "__verif::s1", "S1", quick=["C14"] if op in ("insert", "split_off", "replace_incl") else [], thorough=["C14"],
+      timeout=2400, cost=40, mem_gb=16, stubs=STUB_CUT + STUB_LOOPS, inst="String", funcs=["collections::String::" + op],
+      allow=[r"is_char_boundary|assertion failed|out of bounds|index|range|slice|byte index|cannot remove|placeholder message"],
+      bounds={"text": "any valid UTF-8 of 0..4 bytes", "index/range": "any ILLEGAL value (non-boundary or out of range)", "expectation": "the call does not return"})
+H("s2_from_utf8", "__verif::s1", "S2", quick=["C14"], thorough=["C14"], timeout=2400, cost=60, mem_gb=16, stubs=STUB_CUT + STUB_LOOPS, inst="String",
+  funcs=["collections::String::from_utf8", "FromUtf8Error"], bounds={"input": "every byte string of 0..3 bytes"})
+
+
+# ---------------------------------------------------------------------------
+# DL drop ledger (C15) and BX boxed::Box (C17)
+# ---------------------------------------------------------------------------
+DL = ["pop", "remove", "swap_remove", "truncate", "clear", "drain", "forget_drain", "into_iter", "retain", "dedup", "split_off", "into_boxed", "into_slice", "drop_only"]
+for op in DL:
+    H("dl_" + op, "__verif::dl", "DL", quick=["C15"] if op in ("pop", "remove", "truncate", "drain", "into_iter", "retain", "into_boxed", "into_slice", "drop_only") else [],
+      thorough=["C15"] + (["C17"] if op == "into_boxed" else []), timeout=1500, cost=40, stubs=STUB_CUT + STUB_LOOPS, inst="Vec<D> (D = id + counting destructor)",
+      funcs=["collections::Vec::" + op, "<Vec as Drop>::drop", "Drain/IntoIter Drop", "Bump::reset"],
+      bounds={"elements": 3, "operation": op, "arguments": "symbolic", "then": "container dropped, arena reset"})
+for nm, q in (("basic", 1), ("partial_ord", 1), ("downcast", 1), ("slices", 1), ("from_vec_spare", 1)):
+    H("bx_%s_h" % nm, "__verif::dl", "BX", quick=["C17"] + (["C15"] if nm in ("basic", "slices") else []), thorough=["C17", "C15"], timeout=1500, cost=40,
+      stubs=STUB_CUT + STUB_LOOPS, inst="Box<u32|f32|D|[D;3]|dyn Any>",
+      funcs=["boxed::Box::{new_in,into_inner,into_raw,from_raw,leak,pin_in,downcast}", "<Box as Drop>::drop", "PartialEq/PartialOrd/Ord for Box", "From/TryFrom between Box<[T;N]> and Box<[T]>", "Vec::into_boxed_slice"],
+      bounds={"values": "symbolic u32 / f32 (incl. NaN) / Drop-ledger values", "scenario": nm})
+
+
 def by_name(n):
     for h in ALL:
         if h.name == n:
